@@ -14,4 +14,7 @@ EXPLANATION = (
     "additionally exercised by the bounded stand-in (random operation sequences on OneOfs).")
 ASSUMED = ["A-OBJ raw instance dictionary model", "A-NESTED-MARK (marking an assigned field-less message is nested-object state)", "copy/pickle/from_dict histories: bounded random sequences"]
 from pyvc.check import standin_bounded
-BOUNDED = [standin_bounded("C07")]
+from pyvc.check import external_bounded
+BOUNDED = [standin_bounded("C07"),
+           external_bounded("deep-schema:C07", "standin.deep", ["C07", "--n", "150"], ["C07", "--n", "800"],
+                            "nested schema: oneof-carrying messages inside lists / maps / sub-messages after build, decode, deepcopy, from_dict; copy / deepcopy / pickle followed by a change of one of the two objects")]
